@@ -89,9 +89,12 @@ def run(c):
         out = {"out": out_terms(res), "ok": True}
         if c.get("wm"):
             wm = {int(a): int(b) for a, b in c["wm"]}
-            alt = do_map(m, n, x, wire_map=wm, tol=1e-8)
-            ref = {tuple(sorted((wm[w], l) for w, l in key)): v for key, v in canon(res).items()}
-            out["ok"] = canon(alt) == ref
+            try:
+                alt = do_map(m, n, x, wire_map=wm, tol=1e-8)
+                ref = {tuple(sorted((wm[w], l) for w, l in key)): v for key, v in canon(res).items()}
+                out["ok"] = canon(alt) == ref
+            except Exception as e:  # an image touching a wire outside the register shows up here
+                out["ok"], out["err"] = False, repr(e)
         return out
     if k == "hom":
         u, v = fw(c["u"]), fw(c["v"])
@@ -149,5 +152,9 @@ for c in json.load(sys.stdin)["cases"]:
         r = run(c)
     except (ValueError, IndexError, TypeError) as e:
         r = {"out": "ERR", "ok": None, "err": type(e).__name__}
+    except Exception as e:  # oracle evaluation itself failed: reported as a failed oracle, never a crash
+        if c["kind"] == "map":
+            raise
+        r = {"ok": False, "err": repr(e)}
     out.append(r)
 print(json.dumps(out))
